@@ -371,6 +371,7 @@ func checkC12TmplErr(c c12TmplErrCase) *evid.Fail {
 	}
 	var err error
 	var starts map[[2]int]bool
+	var endTags [][4]int
 	if g := guard(func() {
 		err = mustache.NewMustacheTemplate().SetTemplate(c.Template)
 		if err == nil {
@@ -378,8 +379,28 @@ func checkC12TmplErr(c c12TmplErrCase) *evid.Fail {
 		}
 		t := mtok.NewMustacheTokenizer()
 		starts = map[[2]int]bool{}
-		for _, tk := range t.TokenizeBuffer(src) {
+		toks := t.TokenizeBuffer(src)
+		for _, tk := range toks {
 			starts[[2]int{tk.Line(), tk.Column()}] = true
+		}
+		// the closing tags of the template: from their opening braces to their closing braces
+		for i := 0; i < len(toks); i++ {
+			if toks[i].Type() != tokenizers.Symbol || (toks[i].Value() != "{{" && toks[i].Value() != "{{{") {
+				continue
+			}
+			j := i + 1
+			for j < len(toks) && toks[j].Type() == tokenizers.Whitespace {
+				j++
+			}
+			if j >= len(toks) || toks[j].Value() != "/" {
+				continue
+			}
+			for j < len(toks) && !(toks[j].Type() == tokenizers.Symbol && (toks[j].Value() == "}}" || toks[j].Value() == "}}}")) {
+				j++
+			}
+			if j < len(toks) {
+				endTags = append(endTags, [4]int{toks[i].Line(), toks[i].Column(), toks[j].Line(), toks[j].Column()})
+			}
 		}
 	}); g != nil {
 		return g
@@ -396,6 +417,18 @@ func checkC12TmplErr(c c12TmplErrCase) *evid.Fail {
 	fmt.Sscan(m[2], &col)
 	if !starts[[2]int{line, col}] {
 		return evid.F("error-position:template", "template %q: the error %q quotes %d:%d, where no token of the template starts", c.Template, err.Error(), line, col)
+	}
+	// a section end that is not expected is the offending token itself: the position lies in a closing tag
+	if strings.Contains(err.Error(), "nexpected section end") {
+		inTag := false
+		for _, e := range endTags {
+			after := line > e[0] || (line == e[0] && col >= e[1])
+			before := line < e[2] || (line == e[2] && col <= e[3])
+			inTag = inTag || (after && before)
+		}
+		if !inTag {
+			return evid.F("error-position:template:section-end", "template %q: the error %q quotes %d:%d, which is not inside any closing tag %v", c.Template, err.Error(), line, col, endTags)
+		}
 	}
 	return nil
 }
@@ -430,4 +463,63 @@ func TestC12_RapidTemplateErrorPositions(t *testing.T) {
 		}
 	})
 	requireLabels(t, rec, "rejected:true")
+}
+
+// ---------------------------------------------------------------------------------------
+// Sizes: tokens far to the right on one long line and far down after many short lines (positions around the powers
+// of two up to 2^17 columns / 2^16 lines), described rather than spelled out.
+
+type c12BigCase struct {
+	Tok   string `json:"tok"`
+	Opts  int    `json:"opts"`
+	Shape string `json:"shape"` // longline | manylines
+	N     int    `json:"n"`
+}
+
+func (c c12BigCase) input() string {
+	if c.Shape == "manylines" {
+		return "x" + strings.Repeat("\n", c.N) + "ab 12 'q' /* c */ <= y"
+	}
+	return "ab, " + strings.Repeat("w", c.N) + " x 12 'q' /* c */ <= y\nz 7"
+}
+
+func checkC12Big(c c12BigCase) *evid.Fail {
+	f := checkC12(c12Case{c.Tok, c.Opts, c.input()})
+	if f != nil {
+		if len(f.Msg) > 500 {
+			f.Msg = f.Msg[:250] + " ... " + f.Msg[len(f.Msg)-250:]
+		}
+		f.Msg = fmt.Sprintf("%s tokenizer, options %s, %s of size %d: %s", c.Tok, optNames(c.Opts), c.Shape, c.N, f.Msg)
+	}
+	return f
+}
+
+func init() { regReplay("C12.big", checkC12Big) }
+
+func TestC12_EnumSizes(t *testing.T) {
+	rec := evid.New("C12", "TestC12_EnumSizes", "C12.big", c12Rule+"; sizes: one line of 2^k-1, 2^k, 2^k+1 characters (k = 8..17) followed by tokens of every class, and 2^k short lines (k = 8..16) followed by such tokens, x 4 tokenizers x 3 option sets")
+	rec.Exhaustive = true
+	rec.DupFree = true
+	defer finish(t, rec)
+	var cases []c12BigCase
+	for _, tok := range tokKinds {
+		for _, opts := range []int{0, optAll &^ optSkipEof, optUnifyNumbers | optDecodeStrings | optSkipWhitespaces}[:pick(2, 3)] {
+			for k := 8; k <= 17; k++ {
+				for d := -1; d <= 1; d++ {
+					cases = append(cases, c12BigCase{tok, opts, "longline", 1<<uint(k) + d})
+				}
+				if k <= 16 && (tok != "csv" || k <= 12) { // every line end is a token of its own for the CSV tokenizer
+					cases = append(cases, c12BigCase{tok, opts, "manylines", 1<<uint(k) - 1}, c12BigCase{tok, opts, "manylines", 1 << uint(k)})
+				}
+			}
+		}
+	}
+	rec.Bounds = fmt.Sprintf("%d described inputs", len(cases))
+	parallelFor(len(cases), func(i int) {
+		c := cases[i]
+		rec.Case(jsonStr(c), true, func() interface{} { return c }, "shape:"+c.Shape)
+		if f := checkC12Big(c); f != nil {
+			rec.Fail(f, c)
+		}
+	})
 }
